@@ -8,3 +8,5 @@ import SodiumVerif.Spec.Denot
 import SodiumVerif.Spec.Script
 import SodiumVerif.Model.Txn
 import SodiumVerif.Model.TxnScript
+import SodiumVerif.Model.Lazy
+import SodiumVerif.Model.Conc
